@@ -165,6 +165,27 @@ class Unit:
                 self.renames.pop(rest.strip(), None)
             elif cmd in ('fn', 'sig', 'item'):
                 self.do_extract(cmd, rest, parse_clauses(clause_lines), path, ln, indent)
+            elif cmd == 'pin':
+                # //@@ pin <file> :: <selector> = <sha256 prefix>  -- a function the unit only ASSUMES a contract for (hand-written shim): the
+                # assumption was made for one text of that function. The hash is taken over its significant tokens (comments / whitespace
+                # excluded). A different text means the assumed contract is no longer known to describe the code: undecided, never OK.
+                mm = re.match(r'(\S+)\s*::\s*(.*?)\s*=\s*([0-9a-f?]+)\s*$', rest)
+                if not mm:
+                    raise GenError('%s:%d bad pin directive' % (path, ln))
+                f, sel, want = mm.group(1), mm.group(2).strip(), mm.group(3)
+                src = self.src.get(f)
+                found = src.find(sel)
+                if len(found) != 1:
+                    raise GenError('assumed function changed: pinned %s :: %s matches %d items (its assumed contract is no longer known to describe the code)' % (f, sel, len(found)))
+                it = found[0]
+                sig = ' '.join(t.text for t in src.toks[it.start:it.end] if t.kind not in ('ws', 'comment'))
+                got = hashlib.sha256(sig.encode()).hexdigest()[:len(want) if want != '?' else 12]
+                if want == '?':
+                    raise GenError('pin hash for %s :: %s is %s' % (f, sel, got))
+                if got != want:
+                    raise GenError('assumed function changed: pinned %s :: %s has token hash %s, the assumption was made for %s (its assumed contract is no longer known to describe the code)' % (f, sel, got, want))
+                self.pinned = getattr(self, 'pinned', [])
+                self.pinned.append('%s :: %s = %s' % (f, sel, want))
             elif cmd == 'strlits':
                 self.emit_strlits(path, ln)
             elif cmd == 'cover':
